@@ -468,6 +468,56 @@ def e10b(ctx):
     ctx.floor("E10b-explicit", k, 1, "assignments of the explicitly passed edit in GraphtageFormatter.print")
 
 
+def e10d(ctx):
+    m = ctx.model
+    ctx.rule("E10d", "items of a printed collection stay whole: EditCollection explodes compound sub-edits into their parts by default; "
+                     "a collection whose items a sequence formatter prints one by one (the entries of a fixed-key mapping, the root of a "
+                     "plist) must be built with explode_edits=False - exploded, a changed entry `\"k\": 1 -> 2` becomes the two items "
+                     "`\"k\"` and `1 -> 2`, the `: ` is gone and neither document can be read back")
+    ecq = m.need_class("EditCollection")
+    init = m.method(ecq, "__init__")
+    ps = func_params(init.node)
+    if "explode_edits" not in ps:
+        ctx.proved("E10d", init.file, "EditCollection.__init__", init.node, "no exploding", "EditCollection no longer explodes sub-edits", nontrivial=False)
+        ctx.floor("E10d", 2, 2, "EditCollection constructions")
+        return
+    pos = ps.index("explode_edits") - 1
+    default = None
+    defs = init.node.args.defaults
+    allp = [a.arg for a in init.node.args.args]
+    if "explode_edits" in allp and len(allp) - allp.index("explode_edits") <= len(defs):
+        default = defs[len(defs) - (len(allp) - allp.index("explode_edits"))]
+    n = 0
+    for fq, f in sorted(m.functions.items()):
+        for c in walk_no_nested(f.node):
+            if not isinstance(c, ast.Call):
+                continue
+            nm = call_name(c) or ""
+            is_ctor = nm.split(".")[-1] == "EditCollection"
+            is_super = (nm in ("EditCollection.__init__",) or (nm.endswith(".__init__") and "super" in nm and f.cls and m.is_subclass(f.cls, ecq)
+                                                                and f.node.name == "__init__" and f.cls != ecq
+                                                                and any(k.arg in ("collection", "add_to_collection", "edits") for k in c.keywords)))
+            if isinstance(c.func, ast.Attribute) and c.func.attr == "__init__" and isinstance(c.func.value, ast.Call) \
+                    and call_name(c.func.value) == "super" and f.cls and m.is_subclass(f.cls, ecq) and f.cls != ecq and f.node.name == "__init__" \
+                    and any(k.arg in ("collection", "add_to_collection", "edits") for k in c.keywords):
+                is_super = True
+            if is_super and not (m.find_class("SequenceEdit") and m.is_subclass(f.cls, m.find_class("SequenceEdit"))):
+                continue        # a generic wrapper (EditSequence) is not what a sequence formatter walks; its callers choose
+            if not (is_ctor or is_super):
+                continue
+            n += 1
+            v = kwarg(c, "explode_edits", pos if is_ctor else (pos if nm.startswith("super") or isinstance(c.func.value, ast.Call) else pos + 1))
+            eff = v if v is not None else default
+            if isinstance(eff, ast.Constant) and eff.value is False:
+                ctx.proved("E10d", f.file, f.short, c, f"{f.short}: explode_edits", "explode_edits=False")
+            else:
+                ctx.violation("E10d", f.file, f.short, c, f"{f.short}: explode_edits",
+                              f"`{norm(c, 50)}` builds an EditCollection with explode_edits={'default True' if v is None else norm(v, 20)}: the "
+                              f"compound sub-edits (KeyValuePairEdit of an entry whose value changed) are replaced by their parts, and the "
+                              f"mapping is printed as `{{\"n\": 1, \"k\", \"foo\"->\"bar\"}}`")
+    ctx.floor("E10d", n, 2, "EditCollection constructions")
+
+
 def e10c(ctx):
     m = ctx.model
     ctx.rule("E10c", "plain-text marks are unambiguous: without colour, StringFormatter.write_char writes the change markers "
@@ -512,6 +562,7 @@ def e10c(ctx):
 
 def run(ctx):
     e10c(ctx)
+    e10d(ctx)
     from . import c01
     c01.r01d(ctx)     # the script the marks are drawn from accounts for every pair of a keyed mapping
     c01.r01a(ctx)     # ... and for every element of a positional list edit
